@@ -264,7 +264,9 @@ def apply_tok(obj, t: int, nested_only: bool = False):
     elif name == 'RealTimeSampleArrayMetricStateContainer':
         if obj.MetricValue is None:
             obj.mk_metric_value()
-        obj.MetricValue.Samples = [Decimal(t), Decimal(t + 1)]
+        # (token 2: a waveform state that keeps its MetricValue but carries no samples in this cycle)
+        obj.MetricValue.Samples = [] if t % 3 == 2 else [Decimal(t), Decimal(t + 1)]
+        obj.MetricValue.MetricQuality.Validity = [pm_types.MeasurementValidity.VALID, pm_types.MeasurementValidity.INVALID][t % 2]
         # members of the waveform state other than its samples
         if not obj.PhysiologicalRange:
             obj.PhysiologicalRange = [pm_types.Range(lower=Decimal(-5), upper=Decimal(50 + t))]
